@@ -250,6 +250,7 @@ fn run_vector(s: &Struct, spec: &Spec, a: &Asg, varied: Option<(&Field, &Val, St
                 let dbg = format!("{:?}", p);
                 if !dbg.starts_with(&format!("{}(", s.code)) { fail(st, format!("type {} decodes as {}", s.ty, dbg.split('(').next().unwrap_or(""))); continue; }
                 if let Some((f, v, key)) = &varied {
+                    let mut cars_done = false;
                     let map = debug_map(&dbg);
                     let key = resolve_key(&map, key);
                     if let (K::Flags(_, t), Val::N(x)) = (&f.k, v) { if t == "CARS" {
@@ -260,9 +261,9 @@ fn run_vector(s: &Struct, spec: &Spec, a: &Asg, varied: Option<(&Field, &Val, St
                         obs.checked += 1;
                         let mut a = shown.clone(); a.sort(); let mut b = want.clone(); b.sort();
                         if a != b { fail(st, format!("field Cars: bits {x:#x} are read back as {:?}, the specification says {:?}", shown, want)); }
-                        continue;
+                        cars_done = true;
                     } }
-                    if let Some(m) = observe(f, v, &map, &key, spec, obs) { if f.asserted { fail(st, format!("field {}: {m}", f.spath)); } }
+                    if !cars_done { if let Some(m) = observe(f, v, &map, &key, spec, obs) { if f.asserted { fail(st, format!("field {}: {m}", f.spath)); } } }
                 }
                 match encode_p(compressed, &p) {
                     Enc::Ok(e) => if e != frame { let pos = e.iter().zip(frame.iter()).position(|(a, b)| a != b).unwrap_or(e.len().min(frame.len())); fail(st, format!("the decoded packet re-encodes differently at byte {pos}: {} vs reference {}", hex(&e[pos.saturating_sub(2)..(pos + 6).min(e.len())]), hex(&frame[pos.saturating_sub(2)..(pos + 6).min(frame.len())]))); },
